@@ -16,7 +16,7 @@ FUNCTIONS = [('hio.core.memo.memoing', 'Memoer.rend'), ('hio.core.memo.memoing',
              ('hio.core.memo.memoing', 'Memoer._serviceOneReceived'), ('hio.core.memo.memoing', 'Memoer.fuse'), ('hio.core.memo.memoing', 'Memoer._serviceOnceRxGrams'),
              ('hio.core.memo.memoing', 'Memoer.serviceAllRx'), ('hio.core.memo.memoing', 'Memoer.sign'), ('hio.core.memo.memoing', 'Memoer.verify'),
              ('hio.help.helping', 'intToB64b'), ('hio.help.helping', 'b64ToInt')]
-BOUNDS = {'quick': dict(mlen=5, body=3, grams=3, budget_s=150, audit_max=6), 'thorough': dict(mlen=6, body=3, grams=4, budget_s=1500, audit_max=20)}
+BOUNDS = {'quick': dict(mlen=5, body=3, grams=3, budget_s=150, audit_max=6), 'thorough': dict(mlen=6, body=3, grams=5, budget_s=3000, audit_max=20)}
 OUTSIDE = ['memos longer than the bound / more than `grams` grams', 'real libsodium (ideal signature stub)', 'more than one duplicate or withheld gram per run',
            'a complete duplicate set arriving after the memo was already delivered']
 STUBS = ['FakeSodium ideal signatures, FakeUUID deterministic ids, the tree\'s own echo transport (echoic=True)']
